@@ -136,26 +136,18 @@ Proof.
 Qed.
 
 (* filter_calls without a limit is a flat_map *)
-Definition filter_elem_calls (c : crit) (e : elem) : list nat :=
-  if truthy e then (if is_tag e then [leaf] else []) ++ [fst (strainer_match c e)] else [].
+Definition filter_elem_calls (c : crit) (e : elem) : list nat := [fst (strainer_match c e)].
 Lemma filter_calls_nolimit c elems : c_limit c = None -> forall found,
   filter_calls c elems found = flat_map (filter_elem_calls c) elems.
 Proof.
   intros Hl. induction elems as [|e rest IH]; intros found; [reflexivity|].
   cbn [filter_calls flat_map]. unfold filter_elem_calls at 1.
-  destruct (truthy e); [|apply IH].
-  destruct (strainer_match c e) as [d m]. cbn [fst]. rewrite Hl.
+  destruct (strainer_match c e) as [d m]. cbn [fst app]. rewrite Hl.
   destruct m; rewrite IH; reflexivity.
-Qed.
-Lemma respects_truthy : respects truthy.
-Proof.
-  intros x y H. pose proof (sim_fields x y H) as (Ht & Hn & Hp & Ha & Hk & Hv & Hh & Hso & Hhk & Htx & Hc & Hts & Hks).
-  destruct x, y; cbn in *; try discriminate; subst; reflexivity.
 Qed.
 Lemma respects_filter_elem c : respects (filter_elem_calls c).
 Proof.
-  intros x y H. unfold filter_elem_calls.
-  now rewrite (respects_truthy x y H), (respects_is_tag x y H), (respects_strainer_match c x y H).
+  intros x y H. unfold filter_elem_calls. now rewrite (respects_strainer_match c x y H).
 Qed.
 
 Lemma respects_smooth_contents : respects (fun e => [d_smooth_contents e]).
@@ -357,7 +349,7 @@ Qed.
 Lemma respects_deepcopy_known : respects deepcopy_known_calls.
 Proof.
   intros x y H. pose proof (sim_fields x y H) as (Ht & Hn & Hp & Ha & _).
-  unfold deepcopy_known_calls, d_tag_init_nobuilder. now rewrite Ht, Ha.
+  unfold deepcopy_known_calls, d_tag_init_nobuilder. now rewrite Ht.
 Qed.
 
 Definition known_html (x : elem) : Prop := is_tag x = true -> soup_of x = false /\ kx_of x <> None.
